@@ -545,6 +545,52 @@ func H_C13_Nested() {
 	verifReach("end")
 }
 
+// requested tags above a raw+nested pair (-A and A): the next number as a varint and the first number whose key is one
+// byte longer as a fixed64; whatever is kept per requested tag must stay aligned with the (deduplicated) tag list
+func H_C13_Nested_Neighbours() {
+	a, _ := c13Tags()
+	c1, c2 := a+1, 16
+	if a >= 16 {
+		c2 = 2048
+	}
+	if a >= 2048 {
+		c2 = 1 << 21
+	}
+	x := nondetU64("x")
+	verifAssume(x < 1<<14)
+	sub := c13AppendVarintField(make([]byte, 0, 16), 1, x)
+	y1, y2 := nondetU64("y1"), nondetU64("y2")
+	verifAssume(y1 < 1<<14)
+	msg := protowire.AppendBytes(protowire.AppendTag(c13Buf(), protowire.Number(a), protowire.BytesType), sub)
+	msg = c13AppendVarintField(msg, c1, y1)
+	msg = protowire.AppendFixed64(protowire.AppendTag(msg, protowire.Number(c2), protowire.Fixed64Type), y2)
+	msg = c13AppendVarintField(msg, c1, y1+1)
+	def := NewDef()
+	def.NestedTag(a, 1)
+	def.Tags(-a, c1, c2)
+	r := c13Decode(msg, def)
+	g1, err := r.UInt64Value(c1)
+	verifAssert2(err == nil, g1 == y1+1, "a requested varint tag next to a raw+nested pair (last occurrence)")
+	gs, err := r.UInt64Values(c1)
+	verifAssert2(err == nil, len(gs) == 2, "all occurrences")
+	if len(gs) == 2 {
+		verifAssert2(gs[0] == y1, gs[1] == y1+1, "in wire order")
+	}
+	g2, err := r.Fixed64Value(c2)
+	verifAssert2(err == nil, g2 == y2, "a requested fixed64 tag with a longer key next to a raw+nested pair")
+	raw, err := r.BytesValue(-a)
+	verifAssert(err == nil, "raw access")
+	verifAssertBytesEq(raw, sub, "raw bytes of the sub-message")
+	fd, err := r.FieldData(a, 1)
+	verifAssert2(err == nil, fd != nil, "nested path")
+	if err == nil && fd != nil {
+		v, err := fd.UInt64Value()
+		verifAssert2(err == nil, v == x, "nested value")
+	}
+	verifAssert(r.Close() == nil, "Close")
+	verifReach("end")
+}
+
 // a tag declared flat (no nesting) asked for a nested result
 func H_C13_NestingNotDefined() {
 	a, _ := c13Tags()
